@@ -684,7 +684,7 @@ func runSvcQuery(e *engine.EngineFacade, m drive.Model, p *drive.Program, tg [][
 	if q.Via == "rwtx" {
 		over = nil
 		for _, o := range q.Over {
-			if len(p.Keys[o.K]) > 0 { // the service refuses the empty key (documented key limits)
+			if n := len(p.Keys[o.K]); n > 0 && n <= 4096 { // the service refuses keys outside 1..4096 bytes (documented key limits)
 				over = append(over, o)
 			}
 		}
@@ -995,7 +995,7 @@ func genCase(t *rapid.T) Case {
 	tg := targets(p.Keys)
 	var neKeys [][]byte // prefixes and suffixes are cut from non-empty keys
 	for _, k := range p.Keys {
-		if len(k) > 0 {
+		if len(k) > 0 && len(k) <= 4096 {
 			neKeys = append(neKeys, k)
 		}
 	}
